@@ -156,37 +156,9 @@ def json__compactUnicodeEscape : List String := [
   "return output, index"
 ]
 
-def json__isNegativeZeroLiteral : List String := [
-  "func func(input []byte, i int) bool",
-  "if i >= len(input) || input[i] != '0' {",
-  "return false",
-  "}",
-  "if i+1 < len(input) && (input[i+1] == '.' || input[i+1] == 'e' || input[i+1] == 'E') {",
-  "return false",
-  "}",
-  "if i >= 2 && (input[i-2] == 'e' || input[i-2] == 'E') {",
-  "return false",
-  "}",
-  "return true"
-]
-
 def json__noVerifyCanonicalJSON : List String := [
   "func func(input []byte) error",
   "return nil"
-]
-
-def json__readHexDigits : List String := [
-  "func func(input []byte) rune",
-  "hex := binary.BigEndian.Uint32(input)",
-  "hex -= 0x30303030",
-  "hex &= 0x1F1F1F1F",
-  "mask := hex & 0x10101010",
-  "hex -= mask >> 1",
-  "hex += mask >> 4",
-  "hex |= hex >> 4",
-  "hex &= 0xFF00FF",
-  "hex |= hex >> 8",
-  "return rune(hex & 0xFFFF)"
 ]
 
 def json__sortJSONArray : List String := [
@@ -252,6 +224,6 @@ def json_type_EventJSONs : List String := [
   "type EventJSONs []spec.RawJSON"
 ]
 
-def functions : List String := ["eventversion.go:RoomVersionImpl.CheckCanonicalJSON", "json.go:EventJSONs.TrustedEvents", "json.go:EventJSONs.UntrustedEvents", "json.go:.CanonicalJSON", "json.go:.CanonicalJSONAssumeValid", "json.go:.CompactJSON", "json.go:.EnforcedCanonicalJSON", "json.go:.NewEventJSONsFromEvents", "json.go:.SortJSON", "json.go:.compactUnicodeEscape", "json.go:.isNegativeZeroLiteral", "json.go:.noVerifyCanonicalJSON", "json.go:.readHexDigits", "json.go:.sortJSONArray", "json.go:.sortJSONObject", "json.go:.sortJSONValue", "json.go:.verifyEnforcedCanonicalJSON", "json.go:type EventJSONs"]
+def functions : List String := ["eventversion.go:RoomVersionImpl.CheckCanonicalJSON", "json.go:EventJSONs.TrustedEvents", "json.go:EventJSONs.UntrustedEvents", "json.go:.CanonicalJSON", "json.go:.CanonicalJSONAssumeValid", "json.go:.CompactJSON", "json.go:.EnforcedCanonicalJSON", "json.go:.NewEventJSONsFromEvents", "json.go:.SortJSON", "json.go:.compactUnicodeEscape", "json.go:.noVerifyCanonicalJSON", "json.go:.sortJSONArray", "json.go:.sortJSONObject", "json.go:.sortJSONValue", "json.go:.verifyEnforcedCanonicalJSON", "json.go:type EventJSONs"]
 
 end VPins.C01
